@@ -73,6 +73,25 @@ def trace_tie(ctx: fw.Ctx) -> None:
         finally:
             cs.close(run)
     ctx.differential('T_cycle_world', cw_tie.HEADER, cases, shard=40)
+    calm_states_met(ctx, cases)
+
+
+def calm_states_met(ctx: fw.Ctx, cases: list) -> None:
+    """Non-vacuity of the liveness theorem against the real operator: count the states of the recorded histories that
+    satisfy `calmb` (a decision procedure proved sound for the theorem's hypothesis `calm`).  Statistics only."""
+    import re
+    terms = [c.extra['calm_term'] for c in cases if 'calm_term' in c.extra]
+    if not terms:
+        return
+    header = cw_tie.HEADER + 'From KV Require Import Proofs.CycleCalm.\n'
+    hits: list[int] = []
+    for i in range(0, len(terms), 40):
+        out = fw.coq_show(ctx.work, f'calm_{i}', header, ['[' + '; '.join(terms[i:i + 40]) + ']'])
+        hits += [int(x) for x in re.findall(r'\d+', out[0].split(':')[0])] if out and not out[0].startswith('(coqc failed') else []
+    ctx.cov['calm_states_in_recorded_histories'] = {'histories': len(terms), 'evaluated': len(hits),
+                                                    'histories_with_a_calm_state': sum(1 for h in hits if h > 0), 'calm_states': sum(hits)}
+    ctx.count('T_calm_states', 'histories-with-calm-state', sum(1 for h in hits if h > 0))
+    ctx.count('T_calm_states', 'histories-without', sum(1 for h in hits if h == 0))
 
 
 RETRIGGER_SIGS = {'touch-decision', 'no-sleep', 'slept-after-patch', 'applied-flag'}
